@@ -278,24 +278,13 @@ impl Store {
                 let tx = self.db.begin_write()?;
                 TransactionAndTables::new(tx)?
             }
-            CurrentTransaction::Write(w) => {
-                #[cfg(iroh_docs_verif)]
-                let w = {
-                    let mut w = w;
-                    if crate::verif::tx_call_is_aged() {
-                        w.since -= MAX_COMMIT_DELAY * 2;
-                    }
-                    w
-                };
-                if w.since.elapsed() > MAX_COMMIT_DELAY {
-                    tracing::debug!("committing transaction because it's too old");
-                    w.commit()?;
-                    let tx = self.db.begin_write()?;
-                    TransactionAndTables::new(tx)?
-                } else {
-                    w
-                }
-            }
+            // An open write transaction is used as it is. Committing it here because of its
+            // age would make a half-applied operation durable: `put` prunes in one `modify`
+            // call and writes the new entry in the next, and a commit in between, followed by a
+            // crash, loses the pruned entries without the entry that superseded them. The age
+            // check is made where an operation starts reading (`tables()`), and the actor
+            // flushes periodically.
+            CurrentTransaction::Write(w) => w,
             CurrentTransaction::Read(_) => {
                 let tx = self.db.begin_write()?;
                 TransactionAndTables::new(tx)?
